@@ -37,8 +37,11 @@ MANIFEST = dict(
           "-4712..6000 (weekday, day of year both ways, year) in thorough."),
     note=("Trusted: Lean kernel, Mathlib, axioms propext/Classical.choice/Quot.sound; the hand-written model incl. the "
           "stubs for datetime.date (toordinal/fromordinal/tm_yday), validated by the correspondence run; idealisation "
-          "binary64 -> Rat checked by (I) at +-ulp of midnight/noon. Integer years only; Epoch.utc2local / local=True "
-          "not modelled."),
+          "binary64 -> Rat checked by (I) at +-ulp of midnight/noon (boundary rule: an instant within 2 ulp of a year's "
+          "end may return the next integer; year() of instants closer than 1e-9 day only non-decreasing). Python's float % "
+          "cannot return 1.0 here: the operand of the final % 1 is >= 0.27 for every JDE >= 0. Known finding: the 1.2 s "
+          "bound on the equation of the equinoxes fails for JDE > 3.9e6 (findings.d/C16.json). Integer years only; "
+          "Epoch.utc2local / local=True not modelled."),
     technique="Lean 4 proof (floor/mod lemmas, staged omega) + model/implementation correspondence check + predicates",
     ref='6 C16')
 
